@@ -19,6 +19,10 @@ MCNext ==
 
 MCSpec == MCInit /\ [][MCNext]_<<vars, hist>>
 
+\* every waiter is eventually released / the coroutine eventually completes, under weak fairness of every thread
+FairSpec == MCSpec /\ \A p \in Proc : WF_<<vars, hist>>(MCStep /\ hist' = Append(hist, ev') /\ ev'.p = p)
+EventuallyQuiescent == <>Quiescent
+
 NoRace == MM!NoRace(mm)
 NoStuck == (~ENABLED MCStep) => Quiescent
 View == <<scen, cb, cnt, kcb, pc, ki, wcount, coro, resumes, err, mm>>
